@@ -1,6 +1,7 @@
 import Zrnt.Driver.Loop
 import Zrnt.Beacon.C02Driver
 import Zrnt.Beacon.Spec.BlockTransition
+import Zrnt.Beacon.Impl.BlockM
 /-!
 `zmodel c01` / `zmodel c03` (same line semantics; the generators differ) and `zmodel blockwhy`.
 
@@ -11,7 +12,9 @@ Stateful protocol; a sequence is one pre-state followed by blocks that are ALL a
     sets the current pre-state. `sroots` / `aggs` are the `process_slots` oracles of `C02Driver`
     (needed only for `mode=full` blocks).
 * `blk mode=post|full tag=<free text> <flat block tokens incl. oracle tokens>` →
-    `ok <abbreviated flat post-state>` | `err` | `err-oracle` | `err-fuel`
+    `<M> | <S>`, each `ok <abbreviated flat post-state>` | `err` | `err-oracle` | `err-fuel` (`M` also `panic`);
+    `M` = the code-shaped model `Zrnt/Beacon/Impl/BlockM.lean` run with the context `ctxOf` of the pre-state,
+    `S` = the specification
     mode=post: the pre-state is already at the block's slot (the Go side calls `PostSlotTransition`):
                verify_block_signature + process_block + state-root check;
     mode=full: `state_transition` including `process_slots`.
@@ -39,6 +42,13 @@ def renderRes (why : Bool) (r : SM State) : String :=
   | .error (.fuel _) => "err-fuel"
   | .error (.oracle m) => if why then "err-oracle:" ++ m.replace " " "_" else "err-oracle"
 
+/-- result of the code-shaped model `M` (`outOfFuel` = its oracle audit failed) -/
+def renderM : Res State → String
+  | .ok s => "ok " ++ printStateAbbrev s
+  | .err => "err"
+  | .panic => "panic"
+  | .outOfFuel => "err-oracle"
+
 def step (why : Bool) (cur : Option Pre) (line : String) : Option Pre × String :=
   let toks := tokens line
   let (kv, rest) := parseKV toks
@@ -52,8 +62,18 @@ def step (why : Bool) (cur : Option Pre) (line : String) : Option Pre × String 
     | _, _ => (none, "bad-op")
   | ["blk"] =>
     match cur, parseBlock kv, kv.get? "mode" with
-    | some p, .ok b, some "post" => (cur, renderRes why (state_transition_post_slots p.cfg p.state b))
-    | some p, .ok b, some "full" => (cur, renderRes why (state_transition p.cfg p.agg p.roots p.state b))
+    | some p, .ok b, some "post" =>
+      let sp := renderRes why (state_transition_post_slots p.cfg p.state b)
+      if why then (cur, sp) else
+      (cur, renderM (BlockM.postSlotTransition p.cfg (BlockM.ctxOf p.cfg p.state) p.state b) ++ " | " ++ sp)
+    | some p, .ok b, some "full" =>
+      let sp := renderRes why (state_transition p.cfg p.agg p.roots p.state b)
+      if why then (cur, sp) else
+      -- M: slot processing is the specification's (its code-shaped model belongs to C02), then M's PostSlotTransition
+      let m := match process_slots p.cfg p.agg p.roots p.state b.slot with
+        | .ok s' => renderM (BlockM.postSlotTransition p.cfg (BlockM.ctxOf p.cfg s') s' b)
+        | .error e => renderRes false (.error e)
+      (cur, m ++ " | " ++ sp)
     | _, _, _ => (cur, "bad-op")
   | _ => (cur, "bad-op")
 
